@@ -102,6 +102,12 @@ Proof. vm_compute. reflexivity. Qed.
 Lemma generated_single_txn : single_txn badger_txns = true.
 Proof. vm_compute. reflexivity. Qed.
 
+Lemma generated_write_order_ok : write_order_ok write_order = true.
+Proof. vm_compute. reflexivity. Qed.
+
+Lemma generated_checks_ok : checks_ok site_checks = true.
+Proof. vm_compute. reflexivity. Qed.
+
 (* ---- hand-written sites for the non-vacuity examples (independent of the generated table) ---- *)
 Definition ex_locked : gsite :=
   mkSite "example.locked" "" [GLock "mu"; GRead "x"; GWrite "x"; GUnlock "mu"] "mu".
